@@ -7,12 +7,19 @@
     state the caller passed in, [Fresh] for maps allocated during the call
     (Bindings.Copy, NewBindings, match results, interpreter results) - and
     with a log of every in-place write the Go code performs on such a map
-    (Extend, Extendm, the restore loop of FuncAction.Exec).  Where the Go
-    code copies, the model copies; where it hands a map on, the tag is kept.
+    (Extend, Extendm, the restore loop of FuncAction.Exec) and of every
+    in-place write a wrapped action function may perform on the map it is
+    handed.  Where the Go code copies, the model copies; where it hands a map
+    on, the tag is kept.  FuncAction.Exec hands the action function a shallow
+    copy of the bindings ([func_execT]); the wiring it had before the repair -
+    the action function working on the very map Exec was given - is kept as
+    [func_execT_old] / [stepT_old] and refuted in Proofs/OwnProofs.v.
 
     Theorems (Proofs/OwnProofs.v): erasing the tags gives exactly [step] /
-    [walk_stride]; no logged write changes the contents of a [Caller] map;
-    every state in a returned stride holds a [Fresh] map.  The assignment of
+    [walk_stride]; no logged write - the action function's own included -
+    changes the contents of a [Caller] map; every state in a returned stride
+    holds a [Fresh] map; both for every behaviour of actions and guards.  The
+    assignment of
     tags follows my reading of core/step.go and core/actions.go; the
     map-identity and snapshot probes of the correspondence run test it. *)
 From Sheens Require Export Model.Step.
@@ -51,6 +58,11 @@ Section Own.
   (** the wrapped function handed back the very map it was given (a native
       action may; the ECMAScript interpreter never does: it deep-copies) *)
   Variable same : action -> option bindings -> bool.
+  (** the wrapped function wrote into the map it was given, in place, and
+      changed its contents (a native action may delete or overwrite
+      bindings; the ECMAScript interpreter never does: it deep-copies).  No
+      relation between [mutates], [same] and [run] is assumed. *)
+  Variable mutates : action -> option bindings -> bool.
 
   (** the restore loop of FuncAction.Exec writes each permanent binding into
       the returned map, in place *)
@@ -63,18 +75,55 @@ Section Own.
         (t2, l1 ++ l2)
     end.
 
-  (** FuncAction.Exec on a tracked map: (returned map or nil, emitted, error, writes) *)
-  Definition func_execT (a : action) (t : tbs) : (option tbs * list json) * bool * wlog :=
-    let r := run a (t_val t) in
-    let perm := permanent_of (t_val t) in
-    match xr_exe r with
-    | None => ((None, []), xr_err r, [])
-    | Some (None, em) => ((None, em), xr_err r, [])
-    | Some (Some b, em) =>
-        let ret := mk_tbs (if same a (t_val t) then t_own t else Fresh) (Some b) in
-        let '(t', l) := t_restore perm ret in
-        ((Some t', em), xr_err r, l)
+  (** the in-place writes of the wrapped function itself, on the map [g] it
+      is handed: logged against the owner of that map.  A nil map has no
+      storage (assigning into it panics, deleting from it does nothing): no
+      write. *)
+  Definition action_writes (a : action) (g : tbs) : wlog :=
+    match t_val g with
+    | Some _ => if mutates a (t_val g) then [(t_own g, true)] else []
+    | None => []
     end.
+
+  (** the part of FuncAction.Exec after [given] is chosen: a.F(ctx, given,
+      props), then the restore loop on exe.Bs.  [perm] was gathered before.
+      The returned map is the one handed to the function when the function
+      handed it back ([same]), a map allocated during the call otherwise. *)
+  Definition func_exec_on (a : action) (perm : bindings) (given : tbs)
+    : (option tbs * list json) * bool * wlog :=
+    let r := run a (t_val given) in
+    let lw := action_writes a given in
+    match xr_exe r with
+    | None => ((None, []), xr_err r, lw)
+    | Some (None, em) => ((None, em), xr_err r, lw)
+    | Some (Some b, em) =>
+        let ret := mk_tbs (if same a (t_val given) then t_own given else Fresh) (Some b) in
+        let '(t', l) := t_restore perm ret in
+        ((Some t', em), xr_err r, lw ++ l)
+    end.
+
+  (** FuncAction.Exec on a tracked map: (returned map or nil, emitted, error, writes).
+      [permanent] is gathered from the original [bs]; then
+        given := bs; if bs != nil { given = bs.Copy() }
+      a nil [bs] stays nil: there is no map, so nothing to own - the tag of a
+      nil value is [Fresh] (no storage of the caller's is reachable through it) *)
+  Definition func_execT (a : action) (t : tbs) : (option tbs * list json) * bool * wlog :=
+    let perm := permanent_of (t_val t) in
+    let given := match t_val t with
+                 | Some _ => t_copy t
+                 | None => mk_tbs Fresh None
+                 end in
+    func_exec_on a perm given.
+
+  (** FuncAction.Exec before the repair: exe, err := a.F(ctx, bs, props) -
+      the action function works on the very map Exec was given *)
+  Definition func_execT_old (a : action) (t : tbs) : (option tbs * list json) * bool * wlog :=
+    func_exec_on a (permanent_of (t_val t)) t.
+
+  (** Everything below is Step / Walk around FuncAction.Exec; [fexec] is the
+      wiring of Exec ([func_execT], or [func_execT_old] for the refutation). *)
+  Section Wiring.
+  Variable fexec : action -> tbs -> (option tbs * list json) * bool * wlog.
 
   Inductive ttry : Type := TTNone | TTTo (s : tstate) | TTErr (e : step_err).
 
@@ -82,7 +131,7 @@ Section Own.
     match cands with
     | [] => (Some None, [])
     | c :: r =>
-        let '((ob, _), err, l) := func_execT g c in
+        let '((ob, _), err, l) := fexec g c in
         if err then (None, l)
         else match ob with
              | Some b => (Some (Some b), l)
@@ -180,7 +229,7 @@ Section Own.
     end.
 
   (** Spec.Step; [st] holds the caller's map *)
-  Definition stepT (s : spec action) (st : tstate) (pending : option json) : tstep_out :=
+  Definition step_via (s : spec action) (st : tstate) (pending : option json) : tstep_out :=
     if negb (sp_compiled s) then mk_tstep_out None (Some ENotCompiled) [] else
     match find_node (ts_node st) (sp_nodes s) with
     | None => mk_tstep_out None (Some EUnknownNode) []
@@ -195,7 +244,7 @@ Section Own.
         match nd_action n with
         | None => continueT n st pending have (ts_bs st) [] []
         | Some a =>
-            let '((ob, emitted), err, l) := func_execT a (ts_bs st) in
+            let '((ob, emitted), err, l) := fexec a (ts_bs st) in
             (* nil bindings from an action become NewBindings() *)
             let ebs := match ob with Some t => t | None => mk_tbs Fresh (Some []) end in
             if negb err then continueT n st pending have ebs emitted l
@@ -215,8 +264,8 @@ Section Own.
     end.
 
   (** the stride Walk records for one iteration *)
-  Definition walk_strideT (s : spec action) (st : tstate) (pendings : list json) : tstride * wlog :=
-    let o := stepT s st (peek pendings) in
+  Definition walk_stride_via (s : spec action) (st : tstate) (pendings : list json) : tstride * wlog :=
+    let o := step_via s st (peek pendings) in
     let stride0 :=
       match tso_stride o with
       | Some sd => sd
@@ -231,4 +280,12 @@ Section Own.
                       (tsd_consumed stride0) (tsd_emitted stride0), tso_log o ++ l)
     | None => (stride0, tso_log o)
     end.
+  End Wiring.
+
+  (** Spec.Step and the body of Spec.Walk as they are *)
+  Definition stepT := step_via func_execT.
+  Definition walk_strideT := walk_stride_via func_execT.
+  (** ... and with FuncAction.Exec as it was before the repair *)
+  Definition stepT_old := step_via func_execT_old.
+  Definition walk_strideT_old := walk_stride_via func_execT_old.
 End Own.
